@@ -414,6 +414,142 @@ def dissociate (s : L) (st : SID) : Except String L := do
     let s ← mine.foldlM (fun s e => updPool s o e.1.2.1 0 0 Dec.zero e.2.share.neg) s
     pure { s with assoc := erase s.assoc st }
 
+/-! ## native-restaking balance adjustment (x/delegation/keeper/update_native_restaking_balance.go)
+
+Store iteration order. Both loops of `UpdateNSTBalance` are `sdk.KVStorePrefixIterator`s over the prefix
+`stakerID/assetID/` (types.IteratorPrefixForStakerAsset: the separator is part of the prefix), which yield
+the keys in byte order of the real key strings. The model keeps structured keys, so the candidates are
+the entries whose staker and asset components are the given ones (identifiers never contain "/"), sorted
+by the rendered key string (Lean's `String` order is lexicographic on code points, which for these ASCII
+keys - and for UTF-8 in general - is the byte order). -/
+
+/-- hexutil.EncodeUint64: "0x" ++ lowercase hex without leading zeros ("0x0" for 0) -/
+def hexNat (n : Nat) : String := "0x" ++ String.ofList (Nat.toDigits 16 n)
+
+/-- x/delegation/types/keys.go: GetStakerUndelegationRecordKey = stakerID/assetID/hex(nonce) -/
+def sidxKeyStr (k : SID × AID × Nat) : String := k.1 ++ "/" ++ k.2.1 ++ "/" ++ hexNat k.2.2
+
+/-- assetstype.GetJoinedStoreKey(stakerID, assetID, operator): key of the delegation-state store -/
+def delegKeyStr (k : SID × AID × OID) : String := k.1 ++ "/" ++ k.2.1 ++ "/" ++ k.2.2
+
+/-- insertion into a list sorted by the byte order of `key` (structural, so `decide` can run it) -/
+def insertByKey {α : Type} (key : α → String) (x : α) : List α → List α
+  | [] => [x]
+  | y :: ys => if key x < key y then x :: y :: ys else y :: insertByKey key x ys
+
+/-- the order in which a store iterator visits the entries: ascending byte order of the key string -/
+def sortByKey {α : Type} (key : α → String) (l : List α) : List α := l.foldr (insertByKey key) []
+
+/-- IterateUndelegationsByStakerAndAsset: the record keys stored under the staker-index prefix
+    `stakerID/assetID/`, in iteration order -/
+def nstRecordKeys (s : L) (st : SID) (a : AID) : List RecKey :=
+  (sortByKey (fun e => sidxKeyStr e.1) (s.sidx.filter (fun e => e.1.1 = st ∧ e.1.2.1 = a))).map (·.2)
+
+/-- IterateDelegationsForStakerAndAsset: the delegation states under the prefix `stakerID/assetID/`, in
+    iteration order (key, value as read by the iterator) -/
+def nstDelegations (s : L) (st : SID) (a : AID) : List ((SID × AID × OID) × DelegRow) :=
+  sortByKey (fun e => delegKeyStr e.1) (s.deleg.filter (fun e => e.1.1 = st ∧ e.1.2.1 = a))
+
+/-- UpdateNSTBalance, "slash from pending undelegations": the loop of IterateUndelegationsByStakerAndAsset
+    (isUpdate = true) with the closure `opFunc`. Per index entry: the record is read through its key
+    (missing ⇒ ErrNoKeyInTheStore); slashAmount = min(pending, ActualCompletedAmount) in the code's
+    own formulation; the staker's TotalDepositAmount falls by it; the record is written back with the
+    lowered ActualCompletedAmount; the loop breaks once nothing is left. Returns (state, pendingSlashAmount). -/
+def nstSlashRecords (st : SID) (a : AID) : List RecKey → L → Int → Except String (L × Int)
+  | [], s, pending => .ok (s, pending)
+  | k :: ks, s, pending =>
+    match find? s.recs k with
+    | none => .error "ErrNoKeyInTheStore"
+    | some r =>
+      let slashAmount := if 0 < pending - r.actual then r.actual else pending
+      match updStaker s st a (-slashAmount) 0 0 with
+      | .error e => .error e
+      | .ok s1 =>
+        let s2 : L := { s1 with recs := set s1.recs k { r with actual := r.actual - slashAmount } }
+        if 0 < pending - r.actual then nstSlashRecords st a ks s2 (pending - r.actual)
+        else .ok (s2, pending - r.actual)
+
+/-- x/delegation/keeper/delegation_state.go: TotalDelegatedAmountForStakerAsset (zero shares are skipped;
+    a missing pool or a TokensFromShares error aborts) -/
+def totalDelegated (s : L) (a : AID) : List ((SID × AID × OID) × DelegRow) → Int → Except String Int
+  | [], acc => .ok acc
+  | e :: es, acc =>
+    if e.2.share.raw = 0 then totalDelegated s a es acc
+    else
+      match find? s.pools (e.1.2.2, a) with
+      | none => .error "ErrNoOperatorAssetKey"
+      | some p =>
+        match tokensFromShares e.2.share p.totalShare p.amount with
+        | .error err => .error err
+        | .ok x => totalDelegated s a es (acc + x)
+
+/-- UpdateNSTBalance, "slash from the delegated share": the loop of IterateDelegationsForStakerAndAsset
+    with the closure `opFunc`: slashShare = UndelegatableShare.Mul(slashProportion) (half-even),
+    RemoveShare(isUndelegation = false) - whose errors (a zero slashShare included) abort the whole
+    update -, TotalDepositAmount falls by the tokens actually removed. Every key is visited once and
+    an iteration writes only the delegation row it has just read, so the shares read by the iterator
+    are the ones of the state the loop started from. -/
+def nstSlashShares (st : SID) (a : AID) (prop : Dec) :
+    List ((SID × AID × OID) × DelegRow) → L → Int → Except String (L × Int)
+  | [], s, pending => .ok (s, pending)
+  | e :: es, s, pending =>
+    match removeShare s false e.1.2.2 st a (Dec.mul e.2.share prop) with
+    | .error err => .error err
+    | .ok (s1, actual) =>
+      match updStaker s1 st a (-actual) 0 0 with
+      | .error err => .error err
+      | .ok s2 => nstSlashShares st a prop es s2 (pending - actual)
+
+/-- update_native_restaking_balance.go: MaxSlashProportion -/
+def nstMaxSlashProportion : Int := 1
+
+/-- the slash proportion of the third phase: pending / totalDelegated (LegacyDec.Quo, half-even), capped at
+    MaxSlashProportion -/
+def nstProportion (pending total : Int) : Dec :=
+  let p := Dec.quo (Dec.ofInt pending) (Dec.ofInt total)
+  if Dec.gt p (Dec.ofInt nstMaxSlashProportion) then Dec.ofInt nstMaxSlashProportion else p
+
+/-- UpdateNSTBalance, third phase (entered with pendingSlashAmount > 0) -/
+def nstSlashDelegated (s : L) (st : SID) (a : AID) (pending : Int) : Except String L :=
+  let ds := nstDelegations s st a
+  match totalDelegated s a ds 0 with
+  | .error e => .error e
+  | .ok total =>
+    if total = 0 then .ok s
+    else
+      match nstSlashShares st a (nstProportion pending total) ds s pending with
+      | .error e => .error e
+      | .ok (s', _) => .ok s'
+
+/-- UpdateNSTBalance with a negative amount: withdrawable balance first, then the pending undelegations,
+    then the delegated shares; what cannot be taken anywhere is only logged. -/
+def nstDecrease (s : L) (st : SID) (a : AID) (x : Int) : Except String L :=
+  match find? s.stakers (st, a) with
+  | none => .error "ErrNoStakerAssetKey"                    -- GetStakerSpecifiedAssetInfo
+  | some row =>
+    let pending0 := -x - row.withdrawable
+    let fromW := if 0 < pending0 then row.withdrawable else -x
+    match updStaker s st a (-fromW) (-fromW) 0 with
+    | .error e => .error e
+    | .ok s1 =>
+      match (if 0 < pending0 then nstSlashRecords st a (nstRecordKeys s1 st a) s1 pending0
+             else .ok (s1, pending0)) with
+      | .error e => .error e
+      | .ok (s2, pending1) =>
+        if 0 < pending1 then nstSlashDelegated s2 st a pending1 else .ok s2
+
+/-- x/delegation/keeper/update_native_restaking_balance.go: UpdateNSTBalance(stakerID, assetID, amount).
+    Positive: a virtual deposit (TotalDepositAmount and WithdrawableAmount + amount; the published
+    staking total is not touched); negative: `nstDecrease`; zero: nothing.
+    Scope: the oracle calls it for native-restaking assets, whose staker rows live in x/assets. For the
+    chain's own token GetStakerSpecifiedAssetInfo takes a bank-balance branch that this model does not
+    cover: such a call is refused here and the correspondence run never issues it. -/
+def nstUpdate (s : L) (st : SID) (a : AID) (x : Int) : Except String L :=
+  if a = nativeAID then .error "native-token-outside-model"
+  else if 0 < x then updStaker s st a x x 0
+  else if x < 0 then nstDecrease s st a x
+  else .ok s
+
 /-- the re-based, capped slash proportion of SlashAssets:
     min(1, (power · factor) / value); `value` = StakingAndWaitUnbonding (the Go code panics on 0). -/
 def slashProportion (power : Int) (factor value : Dec) : Dec :=
